@@ -401,8 +401,34 @@ def _exists_w(f, *witness):
         return f(*witness)
     _qcount[0] += 1
     names = f.__code__.co_varnames[:f.__code__.co_argcount]
-    vs = [z3.Const('%s!q%d' % (nm, _qcount[0]), w.sort() if z3.is_expr(w) else z3.RealSort()) for nm, w in zip(names, witness)]
-    return z3.Exists(vs, f(*vs))
+    vs = []
+    for nm, w in zip(names, witness):
+        if z3.is_expr(w):
+            srt = w.sort()
+        elif nm[0] == 'A':
+            srt = z3.ArraySort(z3.IntSort(), z3.RealSort())     # convention: A.. = real sequence
+        elif nm in ('pos', 'i', 'j', 'k', 'n', 'm'):
+            srt = z3.IntSort()
+        elif nm[0] == 'L':
+            # convention: L.. = integer list (length + elements)
+            ln = z3.Int('%s.len!q%d' % (nm, _qcount[0]))
+            arr = z3.Const('%s!q%d' % (nm, _qcount[0]), z3.ArraySort(z3.IntSort(), z3.IntSort()))
+            from .values import VecVal
+            vs.append(('L', ln, arr))
+            continue
+        else:
+            srt = z3.RealSort()
+        vs.append(z3.Const('%s!q%d' % (nm, _qcount[0]), srt))
+    bound, args = [], []
+    for v in vs:
+        if isinstance(v, tuple):
+            from .values import VecVal
+            bound += [v[1], v[2]]
+            args.append(W(None, VecVal(v[1], v[2], ('int', 32, False))))
+        else:
+            bound.append(v)
+            args.append(v)
+    return z3.Exists(bound, f(*args))
 
 
 def _bounded(kind, f, n=1):
@@ -601,7 +627,7 @@ def spec_eval(expr, env, extra=None, term=False):
             g[nm] = BASE_NS[nm]
         else:
             if True:
-                if 'when(' in expr:
+                if 'when(' in expr or 'exists_w(' in expr:
                     g[nm] = Unbound(nm)
                 else:
                     raise NameError('spec name %r is not bound (renamed local / field?) in: %s' % (nm, expr))
